@@ -79,6 +79,7 @@ class Contract:
     abstract: bool = False                    # contract of an abstract method (no body to verify)
     varargs: bool = False                     # extra positional/keyword arguments at call sites are ignored (opaque)
     at_call: dict = field(default_factory=dict)       # callee name -> [Clause] asserted in the caller just before each such call
+    assume_after: dict = field(default_factory=dict)  # callee name -> [Clause] ASSUMED right after each such call (`result` bound); listed as assumptions
     cand_locals: tuple = ()                   # locals that candidates may mention besides __done__/__ret__
     ghost_yield: dict = field(default_factory=dict)
     rely_ensures: list = field(default_factory=list)
